@@ -11,7 +11,7 @@ from .. import common, pools, scenarios
 
 ID = "C12"
 LEVEL = "exploration"
-RULE = ("cases = 14 pool-user scenarios (reader selections, level iteration, taste, colander, "
+RULE = ("cases = 16 pool-user scenarios (reader selections, level iteration, taste, colander, "
         "combine in 3 layout relations, chef, mandoline 3D/2D/plotfile, pestle, whip, chk2plt) x "
         "generated inputs; M1: all n! execution orders of every pool call with 2-4 tasks (others "
         "pinned), seeded permutations beyond, in-process and fork-per-task isolation, serial mode "
@@ -26,8 +26,8 @@ ASSUMPTIONS = ["tasks are atomic (no tool makes two tasks write one file; the ta
                ".npz compared member-wise (zip entries carry wall-clock timestamps)",
                "the pestle integral is compared bit for bit: the tool sums in submission order, so its value is "
                "schedule- and worker-count-independent to the last bit"]
-REQUIRED_OBS = {"m1_runs": 300, "set:m1_schedules": 150, "set:tools_m1": 15, "m2_runs": 20,
-                "set:tools_m2": 15, "histories": 3, "serial_compared": 4}
+REQUIRED_OBS = {"m1_runs": 300, "set:m1_schedules": 150, "set:tools_m1": 16, "m2_runs": 20,
+                "set:tools_m2": 16, "histories": 3, "serial_compared": 4}
 CHAIN = {"quick": 0, "thorough": 0}     # has its own multi-invocation histories
 TIMEOUT = {"quick": 900, "thorough": 3600}
 
